@@ -34,6 +34,7 @@ pub const ROOT: &str = "tbl8";
 /// without looking at the removed versions' transactions (load_new_transactions only sees manifests that still
 /// exist), so conflicts with them go unnoticed and the published version silently loses their effect.
 pub const F_STALE: &str = "C08-stale-commit-skips-cleaned-up-transactions";
+const F_STALE_READ: &str = "C08-commit-from-cleaned-up-read-version";
 
 /// the read version `World::apply` will pick for a stale step (None: the step runs on the latest version)
 pub fn stale_read_version(w: &World, step: &Step) -> Option<u64> {
@@ -512,6 +513,18 @@ async fn check_version(w: &World, v: u64, st: &VersionState, probes: &[u16], pan
 fn judge_stale_commit(cx: &mut Cx, version: u64, read_version: u64, f: &Failure, obs: &mut Obs, env: &Env) -> Option<CheckResult> {
     let gap: Vec<u64> = cx.removed_all.iter().copied().filter(|x| *x > read_version && *x < version).collect();
     if gap.is_empty() {
+        // second listed finding: the handle's read version itself was removed while the write was in flight (the rebase
+        // needs that version's fragments and deletion files).  Timing dependent: most runs fail cleanly with an I/O error.
+        if cx.removed_all.contains(&read_version) {
+            let detail = format!("version {version} was committed from a handle at version {read_version}, which the racing cleanup removed while the write was in flight: {}: {}", f.kind, f.msg);
+            return if env.known(F_STALE_READ) {
+                obs.known_hit(F_STALE_READ, detail);
+                cx.stop = true;
+                Some(Ok(()))
+            } else {
+                Some(Err(Failure::new("commit-from-cleaned-up-read-version", detail)))
+            };
+        }
         return None;
     }
     let detail = format!("version {version} was committed from a handle at version {read_version}; versions {gap:?} in between had been removed by cleanup, their transactions were not considered: {}: {}", f.kind, f.msg);
